@@ -230,6 +230,26 @@ func apiCalls(text string, emit func(apiEvent)) {
 		}
 		return nil
 	}))
+	// ... and on an error that lies in an added type: the converted error names a file, and its position lies in THAT file
+	emit(classify("kit.ConvertError(type)", in, src(map[string]int{"root": 9, "@t": len(text)}), func() error {
+		root := fs.NewFile("root", `{"a": @t}`)
+		r := jschema.FromFile(root)
+		if e := r.AddType("@t", jschema.New("@t", text)); e != nil {
+			return nil
+		}
+		e := r.Check()
+		if e == nil {
+			return nil
+		}
+		ce := kit.ConvertError(root, e)
+		size := map[string]int{"root": 9, "@t": len(text)}[ce.Filename()]
+		if int(ce.Position()) >= size && size > 0 {
+			de := jerr.NewDocumentError(fs.NewFile(ce.Filename(), strings.Repeat(" ", size)), jerr.Format(jerr.ErrGeneric, "kit.ConvertError: position outside the file it names"))
+			de.SetIndex(jerrIndex(int(ce.Position())))
+			return wrapNoRender{de}
+		}
+		return nil
+	}))
 }
 
 // wrapNoRender: a library error whose position is reported but whose rendering is not attempted (it would index outside the file)
